@@ -613,6 +613,21 @@ func c20CanonConfig(c Config) string {
 	return s
 }
 
+// c20RunWorldInChild isolates the world: a failed assertion in any node kills
+// the whole process by the library's design.
+func c20RunWorldInChild(wc c20WorldCase) *c20WorldResult {
+	out, crash, err := c20Child(wc, "c20worldworker")
+	res := &c20WorldResult{Case: wc}
+	if err != nil {
+		res.fail("node-panicked:"+c20Normalize(crash), "a node of the world crashed the process: %s", crash)
+		return res
+	}
+	if err := json.Unmarshal(out, res); err != nil {
+		res.Harness = "world child: " + err.Error()
+	}
+	return res
+}
+
 // ---------------------------------------------------------------- driver
 
 func c20WorldCases(tier string) []c20WorldCase {
@@ -683,7 +698,7 @@ func c20PartCluster(ctx *c20Ctx) bool {
 	var reruns int64
 	c20Parallel(len(cases), workers, func(i int) {
 		for try := 0; try < 3; try++ {
-			results[i] = c20RunWorld(cases[i])
+			results[i] = c20RunWorldInChild(cases[i])
 			if cases[i].IdleAbsent || results[i].Harness != "" || results[i].Mismatched > 0 || len(results[i].Fails) > 0 {
 				break
 			}
